@@ -150,7 +150,7 @@ def _enumerate(tier):
 
 SUBS = [
     Sub("parity_random", check, strategy=_strategy, quick=2000, thorough=60000, shards=16,
-        floors={"nt": 0.3, "tie_pos_neg": 0.2, "interior_segment": 0.057, "grid_at_vertex": 0.2,
+        floors={"nt": 0.28, "tie_pos_neg": 0.2, "interior_segment": 0.057, "grid_at_vertex": 0.2,
                 "vertical_segment": 0.05, "p_ignore>0": 0.03, "flip_used": 0.03, "equalized_odds": 0.05,
                 "groups>=3": 0.2}),
     Sub("parity_large_tied_groups", check_large_tied, strategy=_large_tied_strategy, quick=32, thorough=400, shards=16,
